@@ -629,8 +629,32 @@ func bumpsGen(fn *ssa.Function, genF string, depth int) (ssa.Instruction, bool) 
 		b := in.Block()
 		return b == in.Parent().Blocks[0] || len(guardsOf(b)) == 0
 	}
+	// the increment itself, or - the counter being a named type with an advancing method (t.gen.advance(): *g++) - an
+	// increment through the method's pointer receiver, which the call binds to the address of the generation field
+	isBump := func(d deepInstr) bool {
+		if isFieldIncDec(d.in, genF, +1) {
+			return true
+		}
+		st, ok := d.in.(*ssa.Store)
+		if !ok {
+			return false
+		}
+		prm, ok := st.Addr.(*ssa.Parameter)
+		if !ok || len(d.calls) == 0 {
+			return false
+		}
+		bin, ok := st.Val.(*ssa.BinOp)
+		if !ok || bin.Op != token.ADD || !isConstInt(bin.Y, 1) {
+			return false
+		}
+		if ld, ok := bin.X.(*ssa.UnOp); !ok || ld.Op != token.MUL || ld.X != ssa.Value(prm) {
+			return false
+		}
+		fa, ok := argOf(prm, d.calls).(*ssa.FieldAddr)
+		return ok && isNamedType(fa.X.Type(), "xtime", "JitterTicker") && fieldName(fa.X.Type(), fa.Field) == genF
+	}
 	for _, d := range deepInstrs(fn, 2) {
-		if !isFieldIncDec(d.in, genF, +1) || !uncond(d.in) || !uncond(d.site) {
+		if !isBump(d) || !uncond(d.in) || !uncond(d.site) {
 			continue
 		}
 		// every call on the way down is unconditional too
